@@ -33,7 +33,9 @@ func (switchExpressionParser) Parse(pi *parse.Input) (n Node, ok bool, err error
 	// Once we've had the start of a switch block, we must conclude the block.
 
 	// Read the optional 'case' nodes.
+	vf := verifEnter()
 	for {
+		verifIter(pi, "switchExpressionParser.cases", vf)
 		var ce CaseExpression
 		ce, ok, err = caseExpressionParser.Parse(pi)
 		if err != nil {
